@@ -31,16 +31,19 @@ from . import core
 
 _LATEX_STUB = """#!/bin/sh
 # $1 tex file (its first line names the csv files, then END), $2 pdf file
+exec 2>/dev/null
+echo "latex $1" >> "%(log)s"
 read -r first < "$1"
 { printf 'PDF('; cat "$1"
-  for c in $first; do case "$c" in END) ;; *) printf '|'; cat "$c" 2>/dev/null;; esac; done
-  printf ')'; } > "$2"
-echo "latex $1" >> "%(log)s"
+  for c in $first; do case "$c" in END) ;; *) printf '|'; cat "$c";; esac; done
+  printf ')'; } > "$2" || exit 1
 """
 _PDFTOPPM_STUB = """#!/bin/sh
-# pdftoppm <pdf> <root> -png -singlefile
-{ printf 'PNG('; cat "$1"; printf ')'; } > "$2.png"
+# pdftoppm <pdf> <root> -<format> -singlefile
+exec 2>/dev/null
 echo "pdftoppm $1" >> "%(log)s"
+fmt=${3#-}
+{ printf 'PNG('; cat "$1"; printf ')'; } > "$2.$fmt" || exit 1
 """
 
 _audit = {"on": False, "root": None, "writes": [], "installed": False}
@@ -75,24 +78,38 @@ class Plot(object):
     Sources are histograms, graphs, plain strings (by position and `variant`) or objects with a write method.
     """
 
-    def __init__(self, p, nsrc, obj, grouped, variant=0):
+    def __init__(self, p, nsrc, obj, grouped, variant=0, pngext="png"):
         self.p, self.nsrc, self.obj, self.grouped, self.variant = p, nsrc, obj, grouped, variant
-        self.dirname = ""
+        self.dirname = ""          # where the files are expected, relative to the output directory
+        self.ctx_dirname = None    # what context.output.dirname says (an absolute one is made relative by Write)
         self.csvext = "csv"
+        self.pngext = pngext
+        self.template = None       # context.output.template (takes precedence over RenderLaTeX's default)
+        self.name_class = ""       # "substring-name": the path contains ".tex" / ".pdf" inside a name
         if grouped:
             self.gname = "group%d" % p
             self.members = ["g%dm%d" % (p, m) for m in range(1, nsrc + 1)]
             if p == 2:
-                self.dirname = "grp"
+                # an absolute dirname: documented RuntimeWarning, the leading separator is dropped
+                self.dirname, self.ctx_dirname = "grp", os.sep + "grp"
         else:
             self.gname = {1: "plot1", 2: "plot2", 3: os.path.join("deep", "er", "plot3")}.get(p, "plot%d" % p)
+            if p == 1 and variant % 3 == 1:
+                self.gname = u"plöt.v1"                 # unicode and a dot inside the name
+            if p == 1 and variant % 12 == 10:
+                self.gname, self.name_class = "my.textures.pdfs", "substring-name"
+            if p == 1 and variant % 12 == 11:
+                self.dirname = self.ctx_dirname = "run.texts.pdf.d"
+                self.name_class = "substring-name"
             self.members = [self.gname]
             if p == 2:
-                self.dirname = "sub"
+                self.dirname = "sub"       # through MakeFilename(dirname="{{dir}}")
+                self.csvext = ""           # an empty file extension: the data file has no dot
+                self.template = "alt.tex"  # named in the context
             elif p == 3:
                 self.csvext = "dat"
             elif p >= 4:
-                self.dirname = "d%d" % p
+                self.dirname = self.ctx_dirname = "d%d" % p
 
     def kind(self, m):
         if self.obj:
@@ -110,6 +127,8 @@ class Plot(object):
         if k == "graph":
             return lena.structures.graph([[0, 1, 2], [version, self.p, 7 + m]])
         text = "x,y\n0,%d\n1,%d\n2,%d" % (version, self.p, m)
+        if k == "str" and version == 1:
+            text = ""      # data that looks like nothing: the first version of a string source is the empty string
         return CsvObject(text) if k == "obj" else text
 
     def context(self, m):
@@ -117,14 +136,14 @@ class Plot(object):
         out = {}
         if self.grouped:
             ctx["grp"] = self.gname
-            if self.dirname:
-                out["dirname"] = self.dirname
-        elif self.p == 2:
+        if not self.grouped and self.p == 2:
             ctx["dir"] = self.dirname
-        elif self.dirname:
-            out["dirname"] = self.dirname
+        elif self.ctx_dirname:
+            out["dirname"] = self.ctx_dirname
         if self.csvext != "csv":
             out["fileext"] = self.csvext
+        if self.template:
+            out["template"] = self.template
         if self.kind(m) in ("str", "obj"):
             out["filetype"] = "csv"
         if out:
@@ -132,15 +151,15 @@ class Plot(object):
         return ctx
 
     def csv_path(self, outdir, m):
-        return os.path.join(outdir, self.dirname, self.members[m - 1] + "." + self.csvext)
+        return os.path.join(outdir, self.dirname, self.members[m - 1] + ("." + self.csvext if self.csvext else ""))
 
     def path(self, outdir, kind):
-        return os.path.join(outdir, self.dirname, self.gname + "." + kind)
+        return os.path.join(outdir, self.dirname, self.gname + "." + (self.pngext if kind == "png" else kind))
 
     def expected_tex(self, outdir, version):
         """What Workspace.write_template(version) renders to for this plot / group."""
         csvs = " ".join(self.csv_path(outdir, m) for m in range(1, self.nsrc + 1))
-        return "%s END\n%% template version %d for %s" % (csvs, version, self.gname)
+        return "%s END\n%% %stemplate version %d for %s" % (csvs, "ALT " if self.template else "", version, self.gname)
 
 
 class Tap(object):
@@ -196,6 +215,8 @@ class Workspace(object):
     def write_template(self, version, stamp):
         # first line: the csv file(s) the plot is made from, then END; then the template proper
         texts = {"plot.tex": "\\VAR{ output.filepath } END\n%% template version %d for \\VAR{ name }\n" % version,
+                 # chosen through context.output.template
+                 "alt.tex": "\\VAR{ output.filepath } END\n%% ALT template version %d for \\VAR{ name }\n" % version,
                  "group.tex": "\\BLOCK{ for item in group }\\VAR{ item.output.filepath } \\BLOCK{ endfor }END\n"
                               "%% template version %d for \\VAR{ grp }\n" % version}
         for name, text in texts.items():
@@ -210,29 +231,48 @@ class Workspace(object):
         import lena.flow
         import lena.output
         from lena.flow.group_plots import group_plots, GroupPlots
+        import jinja2
+        from lena.output.render_latex import _Environment
         cmd = lambda tex, pdf, d, ctx: [os.path.join(self.bin, "latexstub"), tex, pdf]
         kw = {"check": {}, "existing_unchanged": {"existing_unchanged": True}, "overwrite": {"overwrite": True}}
         self.tap_csv, self.tap_tex = Tap(), Tap()
-        write1 = lena.output.Write(outdir, verbose=False, **kw[st["m1"]])
+        v = variant
+        # element arguments rotate with the history (same meaning for the statement; stdout is swallowed)
+        tocsv = (lena.output.ToCSV(), lena.output.ToCSV(separator=";"), lena.output.ToCSV(header="# x y"),
+                 lena.output.ToCSV(duplicate_last_bin=False))[v % 4]
+        default_tpl = "group.tex" if grouped else "plot.tex"
+        if v % 3 == 1:      # a callable instead of a template name (context.output.template still wins)
+            render = lena.output.RenderLaTeX(
+                select_template=lambda val: val[1].get("output", {}).get("template", default_tpl),
+                template_dir=self.tpl, verbose=v % 2)
+        elif v % 3 == 2:    # a user-made jinja environment instead of template_dir
+            render = lena.output.RenderLaTeX(
+                default_tpl, environment=_Environment(loader=jinja2.FileSystemLoader(self.tpl)), verbose=v % 2)
+        else:
+            render = lena.output.RenderLaTeX(default_tpl, template_dir=self.tpl, verbose=v % 2)
+        write1 = lena.output.Write(outdir, verbose=bool(v % 2), **kw[st["m1"]])
         tail = (self.tap_tex,
-                lena.output.Write(outdir, verbose=False, **kw[st["m2"]]),
-                lena.output.LaTeXToPDF(overwrite=st["lo"], verbose=0, create_command=cmd),
-                lena.output.PDFToPNG(overwrite=st["po"], verbose=False))
+                lena.output.Write(outdir, verbose=bool((v + 1) % 2), **kw[st["m2"]]),
+                lena.output.LaTeXToPDF(overwrite=st["lo"], verbose=v % 3, create_command=cmd),
+                lena.output.PDFToPNG(format=png_format(v), overwrite=st["po"], verbose=bool(v % 2)))
         if not grouped:
             return lena.core.Sequence(
-                lena.output.ToCSV(), self.tap_csv,
+                tocsv, self.tap_csv,
                 lena.output.MakeFilename("{{name}}"), lena.output.MakeFilename(dirname="{{dir}}"),
-                write1, lena.output.RenderLaTeX("plot.tex", template_dir=self.tpl), *tail)
-        per_member = (lena.output.ToCSV(), self.tap_csv, lena.output.MakeFilename("{{name}}"), write1)
+                write1, render, *tail)
+        per_member = (tocsv, self.tap_csv, lena.output.MakeFilename("{{name}}"), write1)
         if variant % 2:
             with warnings.catch_warnings():
                 warnings.simplefilter("ignore")
                 head = (GroupPlots("{{grp}}", transform=per_member),)
         else:
             head = (lena.flow.GroupBy("grp"), group_plots, lena.flow.MapGroup(*per_member))
-        return lena.core.Sequence(*(head + (
-            lena.output.MakeFilename("{{grp}}"),
-            lena.output.RenderLaTeX("group.tex", template_dir=self.tpl)) + tail))
+        return lena.core.Sequence(*(head + (lena.output.MakeFilename("{{grp}}"), render) + tail))
+
+
+def png_format(variant):
+    """The image format given to PDFToPNG (the fake pdftoppm honours -<format>)."""
+    return "jpeg" if variant % 4 == 3 else "png"
 
 
 def run_history(ws, sc, st, steps, same_objects=False, variant=0):
@@ -241,7 +281,8 @@ def run_history(ws, sc, st, steps, same_objects=False, variant=0):
     the first run starts from an empty output directory).  Returns the list of run records."""
     ws.nhist += 1
     outdir = os.path.join(ws.root, "out%d" % ws.nhist)
-    plots = [Plot(p + 1, n, sc["obj"][p], sc["grouped"], variant) for p, n in enumerate(sc["srcs"])]
+    plots = [Plot(p + 1, n, sc["obj"][p], sc["grouped"], variant, png_format(variant))
+             for p, n in enumerate(sc["srcs"])]
     data_ver = {pl.p: [1] * pl.nsrc for pl in plots}
     tpl_ver = 1
     ws.write_template(tpl_ver, 1000000000)
@@ -345,7 +386,7 @@ def run_history(ws, sc, st, steps, same_objects=False, variant=0):
                 "wrote": {"csv": [c in writes for c in csvs], "tex": paths["tex"] in writes},
                 "launched": {"pdf": any(c == "latex" and a == paths["tex"] for c, a in log),
                              "png": any(c == "pdftoppm" and a == paths["pdf"] for c, a in log)},
-                "ch": ch, "path_ok": path_ok, "nvals": len(mine)})
+                "ch": ch, "path_ok": path_ok, "nvals": len(mine), "name_class": pl.name_class})
         others = [w for w in writes if w not in expected_paths]
         records.append({"touched": {"del": [list(x) for x in step.get("del", [])],
                                     "data": [list(x) for x in step.get("data", [])],
@@ -434,7 +475,9 @@ def cause(rec, j, pred, p):
     else:
         first = "nothing-done"
     if pred == "Yielded":
-        return "nvals=%d" % o["nvals"] if o["nvals"] != 1 else "path"
+        # (plots whose file or directory name contains ".tex" / ".pdf" as a substring are kept apart)
+        return ("nvals=%d" % o["nvals"] if o["nvals"] != 1 else "path") + \
+               (":" + o["name_class"] if o.get("name_class") else "")
     if pred == "Current_csv":
         return csv
     if pred == "Current_tex":
@@ -452,6 +495,10 @@ def cause(rec, j, pred, p):
     return "?"
 
 
+MAX_JVMS = 6
+_TLC_SEM = None
+
+
 def _shard_job(args):
     import hashlib
     workdir, shard, items, repo = args
@@ -464,7 +511,14 @@ def _shard_job(args):
         for gi, sc, st, steps, same in items:
             runs = run_history(ws, sc, st, steps, same_objects=same, variant=gi)
             recs.append({"sc": sc, "set": st, "runs": runs, "same_objects": same, "gi": gi})
-    bad, stats = validate_shard(d, recs, "trace")
+    # at most MAX_JVMS TLC processes at a time (memory), however many replay workers there are
+    if _TLC_SEM is not None:
+        _TLC_SEM.acquire()
+    try:
+        bad, stats = validate_shard(d, recs, "trace")
+    finally:
+        if _TLC_SEM is not None:
+            _TLC_SEM.release()
     hashes = [hashlib.md5(core.canon([r["sc"], r["set"], r["runs"]]).encode()).hexdigest()
               for i, r in enumerate(recs) if i not in bad and len(r["runs"]) > 1]
     out = {"n": len(recs), "runs": sum(len(r["runs"]) for r in recs),
@@ -496,19 +550,26 @@ def check_histories(ctx, items, what, min_shard=40):
     if not items:
         return 0
     nsh = max(1, min(ctx.nworkers, (len(items) + min_shard - 1) // min_shard))
+    if len(items) < 5000:
+        nsh = min(nsh, MAX_JVMS)      # one wave of TLC runs
     shards = [[] for _ in range(nsh)]
     for gi, it in enumerate(items):
         shards[gi % nsh].append((gi,) + tuple(it))
     jobs = [(ctx.workdir, "%s%d" % (what, k), sh, ctx.repo) for k, sh in enumerate(shards)]
+    global _TLC_SEM
     if nsh == 1:
+        _TLC_SEM = None
         outs = [_shard_job(jobs[0])]
     else:
-        pool = multiprocessing.get_context("fork").Pool(nsh)
+        mp = multiprocessing.get_context("fork")
+        _TLC_SEM = mp.Semaphore(MAX_JVMS)     # inherited by the forked workers
+        pool = mp.Pool(nsh)
         try:
             outs = pool.map(_shard_job, jobs)
         finally:
             pool.close()
             pool.join()
+            _TLC_SEM = None
     nacc = 0
     found = {}
     for o in outs:
